@@ -5,7 +5,7 @@ CONSTANTS
   Delegators = {"D1"}
   Specs = {"S1"}
   Plans = {"PL1"}
-  MaxOps = 5
+  MaxOps = 4
   GenHist = FALSE
   FixRenew = TRUE
   Bias = "all"
